@@ -106,6 +106,13 @@ TARGETS = [
       'extern': {'_field_to_iso8583': ([('bit_config', 'cfg'), ('field_value', ('opt', 'anyval')), ('encoding', 'codec')],
                                        'bytes', True)},
       'lean_name': '_dict_to_iso8583_loop'}),
+    # the PDS CARRIERS of _dict_to_iso8583: the statements the loop fragment above leaves out — the configured PDS elements
+    # sorted in descending order, one popped from the end for every packed string `_pds_to_de` returns — on a message whose
+    # values are texts; answers the message with the carriers filled in
+    ('cardutil/iso8583.py', '_dict_to_iso8583', {}, ('dict', 'str', 'str'),
+     {'fragment': ('between', 'de_pds_fields', 'bit', 'message'),
+      'params': [('message', ('dict', 'str', 'str')), ('bit_config', ('dict', 'str', 'cfg'))],
+      'lean_name': '_dict_to_iso8583_carriers'}),
     # the typed conversion on ENCODE: a value of any type in (str, int, Decimal, datetime, bytes), the text (or the value
     # itself) out; `_get_date_from_string` (dateutil or the fallback parser) is a parameter
     ('cardutil/iso8583.py', '_pytype_to_string', {'field_data': 'anyval', 'bit_config': 'cfg'}, 'anyval',
@@ -691,7 +698,7 @@ class Translator:
         v, t = self.hoist(f'(Rt.getItem {vc} {ic})', elem_type(vt))
         return v, t
 
-    CFG_FIELDS = {'field_type': 'str', 'field_length': 'int', 'field_python_type': 'str'}
+    CFG_FIELDS = {'field_type': 'str', 'field_length': 'int', 'field_python_type': 'str', 'field_processor': 'str'}
     CFG_OPTIONAL = {'field_date_format': 'str'}
 
     def cfg_field(self, code, key, default=None):
@@ -708,6 +715,12 @@ class Translator:
 
     def call(self, node, env):
         f = node.func
+        if isinstance(f, ast.Attribute) and f.attr == 'get' and len(node.args) in (1, 2) and not node.keywords \
+                and isinstance(f.value, ast.Subscript) and isinstance(f.value.value, ast.Name) \
+                and env.get(f.value.value.id, (None, None))[1] == ('dict', 'str', 'cfg'):
+            # bit_config[key].get('...'): the entry of the configuration, then its field
+            vc, vt = self.expr(f.value, env)
+            return self.cfg_field(vc, node.args[0], node.args[1] if len(node.args) == 2 else None)
         if isinstance(f, ast.Attribute) and f.attr == 'get' and len(node.args) == 1 and not node.keywords:
             dc, dt = self.expr(f.value, env)
             if is_dict(dt) and dt[2] == 'str':
@@ -822,6 +835,13 @@ class Translator:
             if vt != 'int' or wt != 'int':
                 raise Untranslatable('binary format of non-ints')
             return f'(Rt.fmtBinW {w} {v})', 'str'
+        if isinstance(f, ast.Name) and f.id == 'sorted' and len(node.args) == 1 and len(node.keywords) == 1 \
+                and node.keywords[0].arg == 'reverse' and isinstance(node.keywords[0].value, ast.Constant) \
+                and node.keywords[0].value.value is True:
+            c, t = self.expr(node.args[0], env)
+            if t != ('list', 'int'):
+                raise Untranslatable(f'sorted(reverse=True) of {t}')
+            return f'(Rt.sortedIntDesc {c})', t
         if node.keywords:
             raise Untranslatable('keyword arguments')
         if isinstance(f, ast.Name):
@@ -946,10 +966,6 @@ class Translator:
                     raise Untranslatable('cycle() of something that is not a non-empty list literal')
                 return f'(Rt.zipCycle {a} {b})', ('list', ('tuple', ta[1], tb[1]))
             if name == 'sorted' and len(args) == 1:
-                pass
-            if False:
-                pass
-            if name == 'sorted' and len(args) == 1:
                 c, t = self.expr(args[0], env)
                 if t != ('list', 'str'):
                     raise Untranslatable(f'sorted() of {t}')
@@ -1067,10 +1083,15 @@ class Translator:
         for cnd in g.ifs:
             saved, self.pending = self.pending, []
             cc = self.cond(cnd, inner)
-            if self.pending:
-                raise Untranslatable('partial operation in a comprehension condition')
-            self.pending = saved
-            sc = f'(List.filter ({binder}{opener}{cc}) {sc})'
+            binds, self.pending = self.pending, saved
+            if binds:
+                # a condition that may raise (d[k] inside it): the first failure ends the comprehension
+                body = f'.ok {cc}'
+                for v, code in reversed(binds):
+                    body = f'Outcome.bind {code} (fun {v} => {body})'
+                sc, _ = self.hoist(f'(Rt.filterO ({binder}{opener}{body}) {sc})', st if not is_dict(st) else ('list', 'str'))
+            else:
+                sc = f'(List.filter ({binder}{opener}{cc}) {sc})'
         saved, self.pending = self.pending, []
         ec, etype = self.expr(node.elt, inner)
         binds, self.pending = self.pending, saved
@@ -1112,6 +1133,9 @@ class Translator:
                 if isinstance(st.value, ast.Call) and isinstance(st.value.func, ast.Name) \
                         and st.value.func.id == '__source_read__':
                     out.append('self_in')
+                if isinstance(st.value, ast.Call) and isinstance(st.value.func, ast.Attribute) \
+                        and st.value.func.attr == 'pop' and isinstance(st.value.func.value, ast.Name):
+                    out.append(st.value.func.value.id)
                 for t in st.targets:
                     if isinstance(t, ast.Tuple):
                         out.extend(e.id for e in t.elts if isinstance(e, ast.Name))
@@ -1383,6 +1407,24 @@ class Translator:
                 return (f'let {a} : {lean_type(t[1])} := ({c}).1;\n  let {b} : {lean_type(t[2])} := ({c}).2;\n  '
                         + self.stmts(rest, env2, ret, loop))
             return self.wrap(go_pair)
+        if isinstance(s, ast.Assign) and len(s.targets) == 1 and isinstance(s.targets[0], ast.Name) \
+                and isinstance(s.value, ast.Call) and isinstance(s.value.func, ast.Attribute) \
+                and s.value.func.attr == 'pop' and isinstance(s.value.func.value, ast.Name) \
+                and not s.value.args and not s.value.keywords \
+                and isinstance(env.get(s.value.func.value.id, (None, None))[1], tuple) \
+                and env[s.value.func.value.id][1][0] == 'list':
+            # x = l.pop(): the last item, and the list without it; IndexError on an empty list
+            if not self.monadic:
+                raise NeedMonad()
+            lname = s.value.func.value.id
+            lt = env[lname][1]
+            name = s.targets[0].id
+            env2 = dict(env)
+            env2[name] = (name, lt[1])
+            env2[lname] = (lname, lt)
+            body = self.stmts(rest, env2, ret, loop)
+            return (f'Outcome.bind (Rt.popLast {env[lname][0]}) (fun pr =>\n  let {name} : {lean_type(lt[1])} := pr.1;\n'
+                    f'  let {lname} : {lean_type(lt)} := pr.2;\n  {body})')
         if isinstance(s, ast.Assign) and len(s.targets) == 1 and isinstance(s.targets[0], ast.Name) \
                 and isinstance(s.value, ast.Call) and isinstance(s.value.func, ast.Attribute) \
                 and s.value.func.attr == '__next__' and isinstance(s.value.func.value, ast.Call) \
@@ -1877,6 +1919,17 @@ def fragment_of(body, spec):
     before the first assignment to `name`, followed by `return result`"""
     def assigns(st, name):
         return isinstance(st, ast.Assign) and any(isinstance(t, ast.Name) and t.id == name for t in st.targets)
+    if spec[0] == 'between':
+        # ('between', name, loopvar, result): the statements from the first assignment to `name` up to (not including) the
+        # `for loopvar in ...` statement, followed by `return result`
+        idx0 = [i for i, st in enumerate(body) if assigns(st, spec[1])]
+        if not idx0:
+            raise Untranslatable(f'no assignment to {spec[1]} to cut the fragment at')
+        j = [i for i, st in enumerate(body) if isinstance(st, ast.For) and isinstance(st.target, ast.Name)
+             and st.target.id == spec[2] and i > idx0[0]]
+        if not j:
+            raise Untranslatable(f'no loop over {spec[2]} to end the fragment at')
+        return body[idx0[0]:j[0]] + [ast.Return(value=ast.parse(spec[3], mode='eval').body)]
     if spec[0] == 'while_step':
         # ('while_step', name, state): the FIRST `while True:` loop of the function, which starts with
         # `try: name = super().__next__()  except StopIteration: break`; the fragment is the statements after that `try`
